@@ -4,7 +4,7 @@ import gen
 import wire
 
 PREFIXES = ["", " ", "\n", "\n\n  ", "é ", "'é\n中' | ", "\"\U0001f600\".", "`\"é\"` && ", "a\n.b\n.", "[\n'é',\n", "a ||\n\t"]
-FAILING_CALLS = ["abs('x')", "abs(a, b)", "abs()", "nope(@)", "length(`1`)", "a[::0]", "sort_by(@, &type(@) == `\"x\"`)", "max_by(@, &@)",
+FAILING_CALLS = ["abs(@)\n", "nope(@)\n\n", "a[::0].b", "foo[::0]\n  .bar\n  .baz", "a[::0][0]", "a[::0][?b]", "[::0].a | b", "abs('x')", "abs(a, b)", "abs()", "nope(@)", "length(`1`)", "a[::0]", "sort_by(@, &type(@) == `\"x\"`)", "max_by(@, &@)",
                  "length(abs(foo))", "nope(keys(@))", "abs(foo,\n  to_number(bar))", "join(', ', [abs(`1`), 'x'])", "map(&nope(@), @)",
                  "sum(@)", "avg(@)", "merge(@, `1`)", "not_null()", "sort_by(a, &b)", "min_by(a, &`[1]`)", "[0][::0]", "foo | bar[1:2:0]",
                  "contains(@)", "starts_with(@, `1`)", "to_string(&a)", "keys(a)[0].length(@, @)"]
@@ -25,6 +25,9 @@ class P(framework.Prop):
             toks = gen.mutate(rng, gen.gen_expr(rng, rng.choice([1, 2, 3])))
             text = gen.render(rng, toks)
             out.append("parse " + wire.s(rng.choice(PREFIXES) + text))
+            if rng.random() < 0.3:
+                # errors at the end of input, on a last line that is empty or not
+                out.append("parse " + wire.s(rng.choice(PREFIXES) + text + rng.choice(["\n", " .\n", " ||\n\n", "\n\n", " [\n", ".\n  "])))
         for pre in PREFIXES:
             for call in FAILING_CALLS:
                 for d in DOCS:
